@@ -9,7 +9,7 @@
    carries an anchor (keys_plain); anchors sit on Scalars (scalar_anchors). *)
 From Coq Require Import List Ascii String ZArith NArith Bool.
 From YP Require Import Outcome PyStr PyVal Doc PathParser Searches MergeConfig Merge Anchors SpecC10
-  AnchorsFuel AnchorsProofs AnchorsPolicy.
+  AnchorsFuel AnchorsStr AnchorsProofs AnchorsPolicy AnchorsScan AnchorsUnique.
 Import ListNotations.
 Open Scope string_scope.
 Open Scope list_scope.
@@ -77,6 +77,55 @@ Print Assumptions C10_rename_fuel.
 Theorem C10_rename_new_name :
   forall anchor known s, In anchor known -> calc_unique_anchor anchor known = Ok s -> s <> anchor.
 Proof. exact calc_unique_changes. Qed.
+
+(* two different names that both had to be changed never receive the same new name *)
+Theorem C10_rename_names_differ :
+  forall a b known s, In a known -> In b known ->
+    calc_unique_anchor a known = Ok s -> calc_unique_anchor b known = Ok s -> a = b.
+Proof. exact calc_unique_inj. Qed.
+Print Assumptions C10_rename_names_differ.
+
+(* UNIQUE NAMES: whenever the conflict resolution accepts (under any of the four
+   policies), the two documents it hands to the merge proper hold ONE anchored
+   node per anchor name: no two distinct objects share a name -- and every
+   alias has its definition, an alias being a further place of the same node.
+   Inputs: documents of the property's quantifier (an_doc_ok, computable:
+   containers whose anchors sit on Scalar hash values / array elements), each
+   with one node per name (a loaded document may re-define a name; such inputs
+   are outside the statement), the right-hand tree a faithful picture of its
+   heap (rename_anchor mutates OBJECTS). *)
+Theorem C10_unique_names :
+  forall cfg l r l' r',
+    an_doc_ok l = true -> an_doc_ok r = true ->
+    one_node_per_name l -> one_node_per_name r -> an_heap_ok r ->
+    resolve_conflicts cfg l r = Ok (l', r') ->
+    an_pair_unique l' r'.
+Proof. exact resolve_unique_names. Qed.
+Print Assumptions C10_unique_names.
+
+(* RENAME keeps both values: for every name a whose two anchors conflict, the
+   left document reads its own node at every place of a; on the right no place
+   carries a any more, and EXACTLY the places that carried it (the definition
+   and every alias, at any depth) carry the new name nn -- the same objects with
+   the same values (an_with_name changes the name only) -- where nn is the name
+   _calc_unique_anchor picks, used by neither input document, and absent from
+   the left result. *)
+Theorem C10_rename :
+  forall cfg l r l' r' a la ra,
+    anchor_merge_mode cfg = Ok KRename ->
+    an_doc_ok l = true -> an_doc_ok r = true ->
+    one_node_per_name l -> one_node_per_name r -> an_heap_ok r ->
+    ad_get a (an_scan_anchors l []) = Some la -> ad_get a (an_scan_anchors r []) = Some ra ->
+    anchors_match la ra = false ->
+    resolve_conflicts cfg l r = Ok (l', r') ->
+    all_read a la l' /\
+    exists nn, calc_unique_anchor a (known_names (an_scan_anchors l []) (an_scan_anchors r [])) = Ok nn /\
+               ~ In nn (known_names (an_scan_anchors l []) (an_scan_anchors r [])) /\
+               uses a r' = [] /\
+               uses nn r' = map (an_with_name nn) (uses a r) /\
+               uses nn l' = [].
+Proof. exact resolve_rename. Qed.
+Print Assumptions C10_rename.
 
 (* the replacement policies on documents with plain keys are the declarative
    substitution of SpecC10 *)
@@ -168,6 +217,35 @@ Proof.
     repeat (destruct Hn as [<-|Hn]; [|]); try contradiction;
     repeat (destruct Hm as [<-|Hm]; [|]); try contradiction;
     try reflexivity; try discriminate; vm_compute in Nn, Nm; congruence.
+Qed.
+
+(* the hypotheses of C10_unique_names / C10_rename are satisfiable:
+   {a: &x 1, b: *x}  and  {c: &x 2, d: [*x], e: &y 7, f: &x_1 0}  (every key its own object) *)
+Definition kz (o : N) (s : string) : node := NLeaf (mkinfo o None false None) (PStr s).
+Definition ex2_l : node := NMap (mkinfo 2 None true None) [(kz 30 "a", ex_lx); (kz 31 "b", ex_lx)].
+Definition ex2_r : node :=
+  NMap (mkinfo 3 None true None)
+       [(kz 32 "c", ex_rx); (kz 33 "d", NSeq (mkinfo 4 None true None) [ex_rx]); (kz 34 "e", ex_ry);
+        (kz 35 "f", lf 22 (Some "x_1") (PInt 0))].
+
+Ltac in_cases H := simpl in H; repeat (destruct H as [<-|H]; [|]); try contradiction.
+
+Example C10_wf_example :
+  an_doc_ok ex2_l = true /\ an_doc_ok ex2_r = true /\
+  one_node_per_name ex2_l /\ one_node_per_name ex2_r /\ an_heap_ok ex2_r /\
+  ad_get "x" (an_scan_anchors ex2_l []) = Some ex_lx /\ ad_get "x" (an_scan_anchors ex2_r []) = Some ex_rx /\
+  anchors_match ex_lx ex_rx = false /\
+  resolve_conflicts (ex_cfg "rename") ex2_l ex2_r =
+  Ok (ex2_l, NMap (mkinfo 3 None true None)
+                  [(kz 32 "c", lf 20 (Some "x_1_2") (PInt 2));
+                   (kz 33 "d", NSeq (mkinfo 4 None true None) [lf 20 (Some "x_1_2") (PInt 2)]);
+                   (kz 34 "e", ex_ry); (kz 35 "f", lf 22 (Some "x_1") (PInt 0))]).
+Proof.
+  split; [reflexivity|]. split; [reflexivity|].
+  split; [intros n m a Hn Hm Nn Nm; in_cases Hn; in_cases Hm; try reflexivity; vm_compute in Nn, Nm; congruence|].
+  split; [intros n m a Hn Hm Nn Nm; in_cases Hn; in_cases Hm; try reflexivity; vm_compute in Nn, Nm; congruence|].
+  split; [intros n m Hn Hm E; in_cases Hn; in_cases Hm; try reflexivity; vm_compute in E; discriminate|].
+  repeat split; vm_compute; reflexivity.
 Qed.
 
 (* Scope: the theorems above assume anchors on Scalars (scalar_anchors).  Beyond it the code
